@@ -13,14 +13,15 @@ def first_pass():
     """what the checks said when the seed was first tried (before the checks were strengthened)"""
     import ast
     out = {}
-    for fn, only in [('matrix_2_all_seeds_after_round1_strengthening.log', None), ('matrix_1_round1_seeds_first_checks.log', None)]:
+    # the first matrix in which a seed appears (round 1: k = 1, 2; round 2: k = 3..5; round 3: k = 6..8)
+    for fn, ks in [('matrix_4_all_142_seeds_after_round2_strengthening.log', '678'), ('matrix_2_all_seeds_after_round1_strengthening.log', '345'), ('matrix_1_round1_seeds_first_checks.log', '12')]:
         pth = ROOT + '/seeded/history/' + fn
         if not os.path.exists(pth):
             continue
         for l in open(pth):
-            m = re.match(r"(C\d\d-\d) detected by (\[.*?\])", l)
-            if m:
-                out[m.group(1)] = ast.literal_eval(m.group(2))
+            m = re.match(r"(C\d\d-(\d)) detected by (\[.*?\])", l)
+            if m and m.group(2) in ks:
+                out[m.group(1)] = ast.literal_eval(m.group(3))
     return out
 
 def first_sentence(summ):
